@@ -70,22 +70,60 @@ Fixpoint list_bytes_eqb (a b : list bytes) : bool :=
   | _, _ => false
   end.
 
-(* the case stays inside the modelled class of strconv.Quote *)
+(* the case stays inside the modelled class of strconv.Quote (7-bit strings wherever Quote is applied): then the
+   argument texts and every secret text of the model are exact *)
 Definition cmd_modelled (root : evalue) (args : list (list part)) : bool :=
   forallb (forallb (fun p => match p with
                              | PText _ => true
                              | PRef path => match get_path root path with Some v => quotable v | None => true end
                              end)) args.
 
+(* ---- secret texts that are exact whatever the class: a scalar is never quoted, so its string form is exact for all
+        byte strings; a composite's text needs Quote and is exact when the composite is [quotable] ---- *)
+Definition is_scalar (v : evalue) : bool := match v with VArr _ _ | VObj _ _ => false | _ => true end.
+
+Fixpoint exact_secrets (v : evalue) : list bytes :=
+  (if is_secret v && (is_scalar v || quotable v) then [to_string v] else []) ++
+  match v with
+  | VArr _ l => flat_map exact_secrets l
+  | VObj _ l => flat_map (fun kv => match kv with (_, x) => exact_secrets x end) l
+  | _ => []
+  end.
+
+(* every secret node of [v] has an exact text, i.e. [exact_secrets v] is ALL the secrets of v *)
+Fixpoint secrets_exact (v : evalue) : bool :=
+  (negb (is_secret v) || is_scalar v || quotable v) &&
+  match v with
+  | VArr _ l => forallb secrets_exact l
+  | VObj _ l => forallb (fun kv => match kv with (_, x) => secrets_exact x end) l
+  | _ => true
+  end.
+
+Definition ref_values (root : evalue) (args : list (list part)) : list evalue :=
+  flat_map (fun a => flat_map (fun p => match p with
+                                        | PText _ => []
+                                        | PRef path => match get_path root path with Some v => [v] | None => [] end
+                                        end) a) args.
+
+Definition cmd_exact_secrets (root : evalue) (args : list (list part)) : list bytes :=
+  projection_secrets root (chars "environmentVariables")
+  ++ projection_secrets root (chars "files")
+  ++ flat_map exact_secrets (ref_values root args).
+
+Definition cmd_secrets_exact (root : evalue) (args : list (list part)) : bool :=
+  forallb secrets_exact (ref_values root args).
+
+(* the marking loops as coded are quadratic in the line length: the cross-check rides along on short streams only
+   (C13_redact_as_coded proves the equality for every input) *)
+Definition marks_bound : nat := 4096.
+
 Definition mismatch (c : case) : bool :=
   match c with
   | CRun secrets chunks impl =>
-      (* the model's cost grows faster than quadratically with the line length (150 s for 64 KiB): streams above 40 000
-         bytes are judged by the specification oracle alone (leak / clean text), which is linear *)
-      if Nat.ltb 40000 (length (concat (bl chunks))) then false
-      else
-      negb (result_obs_eqb (Out (run params (bl secrets) (bl chunks))) impl)
-      || negb (marks_agree (rp_placeholder params) (new_replacer params (bl secrets)) (concat (bl chunks)))
+      (* lines of every length are compared: [run_fast] is the linear-time twin of [run] (C13_fast_run_is_run) *)
+      negb (result_obs_eqb (Out (run_fast params (bl secrets) (bl chunks))) impl)
+      || (Nat.leb (length (concat (bl chunks))) marks_bound
+          && negb (marks_agree (rp_placeholder params) (new_replacer params (bl secrets)) (concat (bl chunks))))
   | CLib pats text ph fa ov rep =>
       let ps := bl pats in
       let t := chars text in
@@ -101,12 +139,20 @@ Definition mismatch (c : case) : bool :=
                    | Panic => false
                    end))
   | CCmd root args e script script2 o =>
-      cmd_modelled root args
-      && (let '(m1, m2, merr) := cmd_run params arg_secrets_deep root args e (chars script) (chars script2) in
-          negb (match co_args o with Some l => list_bytes_eqb (bl l) (cmd_args root args) | None => false end)
-          || negb (result_obs_eqb (Out m1) (co_main o))
-          || negb (result_obs_eqb (Out m2) (co_other o))
-          || negb (Bool.eqb merr (co_err o)))
+      (* the Write/Close state machine with the lifecycle read from the source (C13_cmd_nothing_withheld_however_it_ends) *)
+      let '((m1, _), (m2, _), merr) :=
+        cmd_run_sm params arg_secrets_deep redactors_closed_on_every_path root args e
+                   [cmd_stream (cmd_args root args) (chars script)] [chars script2] in
+      (* whether esc failed and whether the command was run are compared for every case *)
+      negb (Bool.eqb merr (co_err o))
+      || match co_args o with Some _ => false | None => true end
+      (* model-internal: where every secret text is exact, the specification's list is the model's *)
+      || (cmd_secrets_exact root args && negb (list_bytes_eqb (cmd_exact_secrets root args) (cmd_secrets true root args)))
+      (* argument texts and forwarded bytes need the modelled Value.ToString: inside its class *)
+      || (cmd_modelled root args
+          && (negb (match co_args o with Some l => list_bytes_eqb (bl l) (cmd_args root args) | None => false end)
+              || negb (result_obs_eqb (Out m1) (co_main o))
+              || negb (result_obs_eqb (Out m2) (co_other o))))
   end.
 
 (* ---- the specification, evaluated on the implementation's observation alone ---------------------- *)
@@ -115,10 +161,31 @@ Definition spec_params : rparams := {| rp_min_len := 3; rp_placeholder := rp_pla
 
 Definition filtered (secrets : list string) : list bytes := new_replacer spec_params (bl secrets).
 
-(* a filtered secret (not confusable with placeholder text) occurs in the forwarded bytes *)
+(* the forwarded text between the copies of the placeholder: with a border-free placeholder its occurrences never
+   overlap, so every copy the filter wrote is cut out and each piece consists of bytes forwarded literally and
+   contiguously from the input *)
+Fixpoint pieces (ph : bytes) (skip : nat) (cur_rev : bytes) (s : bytes) : list bytes :=
+  match s with
+  | [] => [rev_append cur_rev []]
+  | c :: t =>
+      match skip with
+      | S k => pieces ph k cur_rev t
+      | O => if is_prefix ph s then rev_append cur_rev [] :: pieces ph (length ph - 1) [] t
+             else pieces ph 0 (c :: cur_rev) t
+      end
+  end.
+
+(* the secret [p] was forwarded.  If p cannot be spelled with placeholder text (ph_clash = false: the class of
+   C13_no_secret_survives_partial) any occurrence in the output counts.  If it can, an occurrence counts when it lies
+   between the placeholder copies, i.e. when it is certainly not made of placeholder text: no secret is exempt. *)
+Definition forwarded (p out : bytes) : bool :=
+  let ph := rp_placeholder params in
+  if ph_clash ph p then border_free ph && existsb (contains p) (pieces ph 0 [] out)
+  else contains p out.
+
+(* a filtered secret occurs in the forwarded bytes *)
 Definition leak (multiline : bool) (secrets : list string) (out : bytes) : bool :=
-  existsb (fun p => Bool.eqb (has_inner_newline p) multiline && indep (rp_placeholder params) p && contains p out)
-          (filtered secrets).
+  existsb (fun p => Bool.eqb (has_inner_newline p) multiline && forwarded p out) (filtered secrets).
 
 (* clean text = no (non-empty) secret occurs in it at all, whatever its length *)
 Definition nonempty_secrets (l : list bytes) : list bytes := filter (fun p => negb (Nat.eqb (length p) 0)) l.
@@ -128,9 +195,10 @@ Definition clean_changed (secrets chunks : list string) (out : bytes) : bool :=
   negb (existsb (fun p => contains p s) (nonempty_secrets (bl secrets))) && negb (bytes_eqb out s).
 
 (* `cmd` cases: the secrets the property speaks of - secret variables, secret files, every secret value inside a
-   value interpolated into the command line - computed from the case alone *)
+   value interpolated into the command line - computed from the case alone; every scalar secret whatever its bytes,
+   composite secrets when their text is exact *)
 Definition spec_secrets (root : evalue) (args : list (list part)) : list bytes :=
-  new_replacer spec_params (cmd_secrets true root args).
+  new_replacer spec_params (cmd_exact_secrets root args).
 
 Definition mem_bytes (p : bytes) (l : list bytes) : bool := existsb (bytes_eqb p) l.
 
@@ -144,7 +212,7 @@ Definition nested_only (root : evalue) (args : list (list part)) (p : bytes) : b
   nested_class_recorded && negb arg_secrets_deep && negb (mem_bytes p (cmd_secrets false root args)).
 
 Definition cmd_leak (cls : bytes -> bool) (root : evalue) (args : list (list part)) (out : bytes) : bool :=
-  existsb (fun p => cls p && indep (rp_placeholder params) p && contains p out) (spec_secrets root args).
+  existsb (fun p => cls p && forwarded p out) (spec_secrets root args).
 
 Definition cmd_stream_impl (iargs : list string) (script : string) : bytes := cmd_stream (bl iargs) (chars script).
 
@@ -165,30 +233,57 @@ Fixpoint keep_uncovered (w : bytes) (fl : list (bool * bool)) : bytes :=
   | _, _ => []
   end.
 
-Definition withheld (root : evalue) (args : list (list part)) (written out : bytes) : bool :=
-  let pats := nonempty_secrets (cmd_secrets true root args) in
+Definition withheld_from (pats : list bytes) (written out : bytes) : bool :=
   negb (is_subseq (keep_uncovered written (flags pats 0 written)) out).
 
-(* one stream of a `cmd` case: [written] is what the command wrote to it, [out] what esc forwarded *)
+Definition withheld (root : evalue) (args : list (list part)) (written out : bytes) : bool :=
+  withheld_from (nonempty_secrets (cmd_exact_secrets root args)) written out.
+
+(* `run` cases, streams of EVERY length: every written byte that lies inside no occurrence of any (non-empty) secret
+   appears in the output, in order *)
+Definition withheld_run (secrets chunks : list string) (out : bytes) : bool :=
+  withheld_from (nonempty_secrets (bl secrets)) (concat (bl chunks)) out.
+
+(* exactly the bytes outside the secrets are forwarded: where every (non-empty) secret is filtered (>= 3 bytes) and
+   line-local, the occurrences the filter must withhold are all the occurrences there are, so the output with the
+   placeholder copies cut out has to EQUAL the input with the bytes of the occurrences cut out - not a byte of an
+   occurrence forwarded (C13_no_secret_byte_forwarded), nothing else withheld, nothing invented or repeated.
+   Judged when the first byte of the placeholder does not occur in the input (then cutting out the copies is exact). *)
+Definition stream_flags_fast (pats : list bytes) (s : bytes) : list (bool * bool) :=
+  let (ls, r) := lines_rev [] s in concat (map (flags pats 0) ls) ++ flags pats 0 r.
+
+Definition forwarded_inexact (pats : list bytes) (written out : bytes) : bool :=
+  let ph := rp_placeholder params in
+  forallb (fun p => Nat.leb 3 (length p) && negb (has_inner_newline p)) pats
+  && border_free ph
+  && negb (match ph with h :: _ => mem_byte h written | [] => true end)
+  && negb (bytes_eqb (concat (pieces ph 0 [] out)) (keep_uncovered written (stream_flags_fast pats written))).
+
+(* one stream of a `cmd` case: [written] is what the command wrote to it, [out] what esc forwarded.  The leak oracle
+   judges every exact secret text in every case; clean-text and nothing-withheld need ALL the secret texts (a byte
+   may be withheld only inside an occurrence of one of them), so they are judged when every secret text is exact *)
 Definition cmd_stream_fail_new (root : evalue) (args : list (list part)) (written out : bytes) : bool :=
   cmd_leak (fun p => negb (has_inner_newline p) && negb (nested_only root args p)) root args out
-  || (negb (existsb (fun p => contains p written) (nonempty_secrets (cmd_secrets true root args)))
-      && negb (bytes_eqb out written))
-  || withheld root args written out.
+  || (cmd_secrets_exact root args
+      && ((negb (existsb (fun p => contains p written) (nonempty_secrets (cmd_exact_secrets root args)))
+           && negb (bytes_eqb out written))
+          || withheld root args written out
+          || forwarded_inexact (nonempty_secrets (cmd_exact_secrets root args)) written out)).
 
-(* failures that no known finding excuses: a panic, clean text changed, a line-local secret forwarded *)
+(* failures that no known finding excuses: a panic, clean text changed, a line-local secret forwarded, a byte outside
+   every secret withheld *)
 Definition spec_fail_new (c : case) : bool :=
   match c with
   | CRun secrets chunks OPanic => true
-  | CRun secrets chunks (OOut o) => leak false secrets (chars o) || clean_changed secrets chunks (chars o)
+  | CRun secrets chunks (OOut o) =>
+      leak false secrets (chars o) || clean_changed secrets chunks (chars o) || withheld_run secrets chunks (chars o)
+      || forwarded_inexact (nonempty_secrets (bl secrets)) (concat (bl chunks)) (chars o)
   | CLib _ _ _ _ _ _ => false
   | CCmd root args e script script2 o =>
       match co_args o, co_main o, co_other o with
       | Some iargs, OOut m, OOut o2 =>
-          (* the secrets' texts are computed with the modelled Value.ToString: only inside its class *)
-          cmd_modelled root args
-          && (cmd_stream_fail_new root args (child_wrote e (cmd_stream_impl iargs script)) (chars m)
-              || cmd_stream_fail_new root args (child_wrote e (chars script2)) (chars o2))
+          cmd_stream_fail_new root args (child_wrote e (cmd_stream_impl iargs script)) (chars m)
+          || cmd_stream_fail_new root args (child_wrote e (chars script2)) (chars o2)
       | _, _, _ => true
       end
   end.
@@ -215,12 +310,11 @@ Definition spec_fail_known (c : case) : bool :=
   | CCmd root args _ _ _ o =>
       match co_args o, co_main o, co_other o with
       | Some _, OOut m, OOut o2 =>
-          cmd_modelled root args
-          && ((known c && (cmd_leak has_inner_newline root args (chars m)
-                           || cmd_leak has_inner_newline root args (chars o2)))
-              || (known_nested c
-                  && (cmd_leak (fun p => negb (has_inner_newline p) && nested_only root args p) root args (chars m)
-                      || cmd_leak (fun p => negb (has_inner_newline p) && nested_only root args p) root args (chars o2))))
+          (known c && (cmd_leak has_inner_newline root args (chars m)
+                       || cmd_leak has_inner_newline root args (chars o2)))
+          || (known_nested c
+              && (cmd_leak (fun p => negb (has_inner_newline p) && nested_only root args p) root args (chars m)
+                  || cmd_leak (fun p => negb (has_inner_newline p) && nested_only root args p) root args (chars o2)))
       | _, _, _ => false
       end
   | _ => false
@@ -232,10 +326,13 @@ Definition nontrivial (c : case) : bool :=
   match c with
   | CRun secrets chunks _ => existsb (fun p => contains p (concat (bl chunks))) (filtered secrets)
   | CLib pats text _ _ _ _ => negb (Nat.eqb (length (lib_overlapping (bl pats) (chars text))) 0)
-  | CCmd root args e script script2 _ =>
-      cmd_modelled root args
-      && existsb (fun p => contains p (child_wrote e (cmd_stream (cmd_args root args) (chars script)))
-                           || contains p (child_wrote e (chars script2))) (spec_secrets root args)
+  | CCmd root args e script script2 o =>
+      match co_args o with
+      | Some iargs =>
+          existsb (fun p => contains p (child_wrote e (cmd_stream_impl iargs script))
+                            || contains p (child_wrote e (chars script2))) (spec_secrets root args)
+      | None => false
+      end
   end.
 
 (* ---- wire format ---- *)
